@@ -1035,3 +1035,882 @@ Example cotree_rebuild_bigger_hyp_sat :
 Proof.
   split; [exact wf_empty|]. split; [exact tree_inv_empty | apply Permutation_refl].
 Qed.
+
+(* ========================================================================= *)
+(*  (g) Dense_Row                                                            *)
+(* ========================================================================= *)
+
+(* coeffs: in index order; limb block (id, bytes) of each CONSTRUCTED coefficient
+   (None = default-constructed, no limb block).  size() = length coeffs. *)
+Record drow := mkRow {
+  vec    : option nat;
+  cap    : N;
+  coeffs : list (option (nat * N))
+}.
+
+Definition empty_row : drow := mkRow None 0 [].
+
+Definition coeff_blk (c : option (nat * N)) : list blk :=
+  match c with Some (b, sz) => [(b, (LGmp, sz))] | None => [] end.
+
+Definition coeffs_blks (cs : list (option (nat * N))) : list blk := flat_map coeff_blk cs.
+
+Definition owned_row (r : drow) : list blk :=
+  opt_blk LNew (sz_coeff * cap r) (vec r) ++ coeffs_blks (coeffs r).
+
+Definition dsize (r : drow) : N := N.of_nat (length (coeffs r)).
+
+Definition row_inv (r : drow) : Prop :=
+  (vec r = None -> cap r = 0) /\ dsize r <= cap r.
+
+Lemma row_inv_empty : row_inv empty_row.
+Proof. split; cbn; [reflexivity | lia]. Qed.
+
+(* Dense_Row::shrink(new_size): destroy from the end down *)
+Definition shrink (new_size : nat) : M drow unit :=
+  r <- get ;;
+  free_list (coeffs_blks (rev (skipn new_size (coeffs r)))) ;;;
+  put (mkRow (vec r) (cap r) (firstn new_size (coeffs r))).
+
+(* Dense_Row::resize(new_size)   Dense_Row.cc:46 *)
+Definition dense_resize (new_size : N) : M drow unit :=
+  r <- get ;;
+  if N.leb new_size (dsize r) then shrink (N.to_nat new_size)
+  else
+    (if N.ltb (cap r) new_size then
+       (* new_vec = allocate(new_capacity = new_size) *)
+       nv <- alloc LNew (sz_coeff * new_size) ;;
+       (* if (impl.vec != nullptr) { memcpy; deallocate(impl.vec, impl.capacity); } *)
+       free_opt LNew (vec r) ;;;
+       modify (fun r => mkRow (Some nv) new_size (coeffs r))
+     else ret tt) ;;;
+    (* while (impl.size != new_size) new (&vec[size++]) Coefficient();  no allocation *)
+    modify (fun r => mkRow (vec r) (cap r)
+                           (coeffs r ++ repeat None (N.to_nat (new_size - dsize r)))).
+
+Lemma coeffs_blks_app : forall a b, coeffs_blks (a ++ b) = coeffs_blks a ++ coeffs_blks b.
+Proof. intros; unfold coeffs_blks; apply flat_map_app. Qed.
+
+Lemma coeffs_blks_rev : forall cs, Permutation (coeffs_blks (rev cs)) (coeffs_blks cs).
+Proof.
+  intros cs. unfold coeffs_blks. apply Permutation_flat_map.
+  apply Permutation_sym, Permutation_rev.
+Qed.
+
+Lemma coeffs_blks_repeat_None : forall n, coeffs_blks (repeat None n) = [].
+Proof. induction n; cbn; auto. Qed.
+
+Lemma perm_rot3 {A} (a b c x : list A) :
+  Permutation (a ++ b ++ c ++ x) (c ++ a ++ b ++ x).
+Proof.
+  rewrite !app_assoc. apply Permutation_app_tail.
+  rewrite <- (app_assoc c a b). apply Permutation_app_comm.
+Qed.
+
+Lemma shrink_sat : forall n s h X,
+  Lg (owned_row s ++ X) h ->
+  sat (shrink n s h)
+      (fun _ s' h' => s' = mkRow (vec s) (cap s) (firstn n (coeffs s)) /\
+                      Lg (owned_row s' ++ X) h')
+      (fun _ _ => False).
+Proof.
+  intros n s h X HL. unfold shrink. rewrite bind_get.
+  eapply sat_bind.
+  - eapply free_list_sat with
+      (X := opt_blk LNew (sz_coeff * cap s) (vec s) ++ coeffs_blks (firstn n (coeffs s)) ++ X);
+      [exact HL|].
+    unfold owned_row. rewrite <- (firstn_skipn n (coeffs s)) at 1.
+    rewrite coeffs_blks_app. rewrite <- !app_assoc.
+    eapply Permutation_trans.
+    2:{ apply Permutation_app_tail. apply Permutation_sym. apply coeffs_blks_rev. }
+    apply perm_rot3.
+  - intros ? ? F; contradiction.
+  - cbn beta. intros _ s1 h1 [-> HL1]. cbn [put sat]. split; [reflexivity|].
+    unfold owned_row. cbn [vec cap coeffs]. rewrite <- app_assoc. exact HL1.
+Qed.
+
+Lemma dense_resize_sat : forall ns s h X,
+  row_inv s -> Lg (owned_row s ++ X) h ->
+  sat (dense_resize ns s h)
+      (fun _ s' h' => row_inv s' /\ dsize s' = ns /\ Lg (owned_row s' ++ X) h')
+      (fun s' h' => s' = s /\ Lg (owned_row s ++ X) h').
+Proof.
+  intros ns s h X [I0 I1] HL. unfold dense_resize. rewrite bind_get.
+  destruct (N.leb_spec ns (dsize s)) as [Hle|Hgt].
+  - eapply sat_conseq; [apply shrink_sat; exact HL| |].
+    + cbn beta. intros _ s' h' [-> HL']. unfold row_inv, dsize in *. cbn [vec cap coeffs].
+      rewrite firstn_length. split; [split; [exact I0 | lia]|]. split; [lia | exact HL'].
+    + cbn beta. intros ? ? F; contradiction.
+  - eapply sat_bind with
+      (Q1 := fun _ s1 h1 => coeffs s1 = coeffs s /\ ns <= cap s1 /\ (vec s1 = None -> False) /\
+                            Lg (owned_row s1 ++ X) h1)
+      (E1 := fun s' h' => s' = s /\ Lg (owned_row s ++ X) h').
+    + destruct (N.ltb_spec (cap s) ns) as [Hc|Hc].
+      * eapply sat_bind.
+        -- apply alloc_sat; exact HL.
+        -- cbn beta. intros s' h' H; exact H.
+        -- cbn beta. intros nv s1 h1 [-> HL1]. eapply sat_bind.
+           ++ eapply free_opt_sat with
+                (X := (nv, (LNew, sz_coeff * ns)) :: coeffs_blks (coeffs s) ++ X); [exact HL1|].
+              unfold owned_row. rewrite <- app_assoc.
+              apply Permutation_middle.
+           ++ intros ? ? F; contradiction.
+           ++ cbn beta. intros _ s2 h2 [-> HL2]. cbn [modify sat coeffs cap vec].
+              split; [reflexivity|]. split; [lia|]. split; [discriminate|].
+              unfold owned_row. cbn [vec cap coeffs opt_blk app]. exact HL2.
+      * cbn [ret sat]. split; [reflexivity|]. split; [exact Hc|]. split; [|exact HL].
+        intros Hv. specialize (I0 Hv). unfold dsize in *. lia.
+    + intros s' h' H; exact H.
+    + cbn beta. intros _ s1 h1 [Hc [Hcap [Hv HL1]]]. cbn [modify sat].
+      unfold row_inv, dsize in *. cbn [vec cap coeffs].
+      rewrite app_length, repeat_length, Hc.
+      split; [split; [intros Hn; contradiction (Hv Hn) | lia]|]. split; [lia|].
+      unfold owned_row in *. cbn [vec cap coeffs].
+      rewrite coeffs_blks_app, coeffs_blks_repeat_None, app_nil_r. rewrite <- Hc. exact HL1.
+Qed.
+
+Theorem dense_resize_unwind_balanced : forall ns r k h X,
+  wf h -> row_inv r -> ledger_eq (live h) (owned_row r ++ X) ->
+  match dense_resize ns r (arm k h) with
+  | Ret _ r' h' => wf h' /\ ledger_eq (live h') (owned_row r' ++ X)
+                   /\ row_inv r' /\ dsize r' = ns /\ NoDup (map fst (owned_row r'))
+  | Exn r' h' => wf h' /\ ledger_eq (live h') (owned_row r ++ X) /\ r' = r
+  | Bad _ => False
+  end.
+Proof.
+  intros ns r k h X W I P.
+  pose proof (dense_resize_sat ns r (arm k h) X I (Lg_arm k _ _ (conj W P))) as H.
+  destruct (dense_resize ns r (arm k h)) as [a r' h'|r' h'|h']; cbn [sat] in H.
+  - destruct H as [I' [Hs HL]]. apply Lg_out in HL. tauto.
+  - destruct H as [-> [W' P']]. auto.
+  - exact H.
+Qed.
+
+Example dense_resize_hyp_sat :
+  wf empty_heap /\ row_inv empty_row /\ ledger_eq (live empty_heap) (owned_row empty_row ++ []).
+Proof.
+  split; [exact wf_empty|]. split; [exact row_inv_empty | apply Permutation_refl].
+Qed.
+
+(* Dense_Row::Dense_Row(const Dense_Row& y)   Dense_Row_inlines.hh:
+   impl is a fully constructed member: when the body throws, ~Impl runs
+   (destroys the [size] constructed coefficients from the end down, then
+   deallocate(vec, capacity), a no-op when vec is null). *)
+Fixpoint copy_coeffs (ls : list N) : M drow unit :=
+  match ls with
+  | [] => ret tt
+  | lb :: rest =>
+      b <- alloc LGmp (limb_bytes lb) ;;           (* new (&vec[size]) Coefficient(y[size]) *)
+      modify (fun r => mkRow (vec r) (cap r) (coeffs r ++ [Some (b, limb_bytes lb)])) ;;;  (* ++size *)
+      copy_coeffs rest
+  end.
+
+Definition impl_dtor : M drow unit :=
+  r <- get ;;
+  free_list (coeffs_blks (rev (coeffs r))) ;;;
+  free_opt LNew (vec r).
+
+(* y is given as (capacity, limbs of each coefficient); y.vec != nullptr is
+   modelled as ycap <> 0 *)
+Definition dense_copy_body (ycap : N) (ycoeffs : list N) : M drow unit :=
+  if N.eqb ycap 0 then ret tt
+  else
+    modify (fun r => mkRow (vec r) ycap (coeffs r)) ;;;      (* impl.capacity = y.capacity() *)
+    nv <- alloc LNew (sz_coeff * ycap) ;;                    (* impl.vec = allocate(capacity) *)
+    modify (fun r => mkRow (Some nv) (cap r) (coeffs r)) ;;;
+    copy_coeffs ycoeffs.
+
+Definition dense_copy (ycap : N) (ycoeffs : list N) : M unit drow :=
+  construct empty_row (try_catch (dense_copy_body ycap ycoeffs) (impl_dtor ;;; throw)).
+
+Lemma copy_coeffs_sat : forall ls s h X,
+  Lg (owned_row s ++ X) h ->
+  sat (copy_coeffs ls s h)
+      (fun _ s' h' => vec s' = vec s /\ cap s' = cap s /\
+                      length (coeffs s') = (length (coeffs s) + length ls)%nat /\
+                      Lg (owned_row s' ++ X) h')
+      (fun s' h' => Lg (owned_row s' ++ X) h').
+Proof.
+  induction ls as [|lb rest IH]; intros s h X HL; cbn [copy_coeffs].
+  - cbn [ret sat]. split; [reflexivity|]. split; [reflexivity|]. split; [cbn; lia | exact HL].
+  - eapply sat_bind.
+    + apply alloc_sat; exact HL.
+    + cbn beta. intros s' h' [-> H]. exact H.
+    + cbn beta. intros b s1 h1 [-> HL1]. rewrite bind_modify.
+      eapply sat_conseq.
+      * apply IH with (X := X). unfold owned_row in *. cbn [vec cap coeffs].
+        rewrite coeffs_blks_app. cbn [coeffs_blks flat_map coeff_blk app].
+        eapply Lg_perm; [exact HL1|].
+        rewrite <- !app_assoc. cbn [app].
+        rewrite !app_assoc. apply Permutation_middle.
+      * cbn beta. cbn [vec cap coeffs]. intros _ s2 h2 [A [B [C D]]].
+        rewrite app_length in C. cbn [length] in *.
+        split; [exact A|]. split; [exact B|]. split; [lia | exact D].
+      * cbn beta. intros s2 h2 H; exact H.
+Qed.
+
+Lemma impl_dtor_sat : forall s h X,
+  Lg (owned_row s ++ X) h ->
+  sat (impl_dtor s h) (fun _ s' h' => Lg X h') (fun _ _ => False).
+Proof.
+  intros s h X HL. unfold impl_dtor. rewrite bind_get.
+  eapply sat_bind.
+  - eapply free_list_sat with (X := opt_blk LNew (sz_coeff * cap s) (vec s) ++ X); [exact HL|].
+    unfold owned_row. rewrite <- app_assoc.
+    eapply Permutation_trans.
+    2:{ apply Permutation_app_tail. apply Permutation_sym. apply coeffs_blks_rev. }
+    rewrite !app_assoc. apply Permutation_app_tail. apply Permutation_app_comm.
+  - intros ? ? F; contradiction.
+  - cbn beta. intros _ s1 h1 [-> HL1].
+    eapply sat_conseq.
+    + eapply free_opt_sat; [exact HL1|]. apply Permutation_refl.
+    + cbn beta. intros _ s' h' [_ H]; exact H.
+    + intros ? ? F; contradiction.
+Qed.
+
+Lemma dense_copy_sat : forall ycap ycoeffs (u : unit) h X,
+  N.of_nat (length ycoeffs) <= ycap ->
+  Lg X h ->
+  sat (dense_copy ycap ycoeffs u h)
+      (fun r _ h' => row_inv r /\ dsize r = (if N.eqb ycap 0 then 0 else N.of_nat (length ycoeffs))
+                     /\ Lg (owned_row r ++ X) h')
+      (fun _ h' => Lg X h').
+Proof.
+  intros ycap ycoeffs u h X Hy HL. unfold dense_copy.
+  eapply sat_construct with
+    (Q1 := fun _ r h' => row_inv r /\ dsize r = (if N.eqb ycap 0 then 0 else N.of_nat (length ycoeffs))
+                         /\ Lg (owned_row r ++ X) h')
+    (E1 := fun _ h' => Lg X h').
+  - eapply sat_try with
+      (Q1 := fun _ r h' => row_inv r /\ dsize r = (if N.eqb ycap 0 then 0 else N.of_nat (length ycoeffs))
+                           /\ Lg (owned_row r ++ X) h')
+      (E1 := fun s' h' => Lg (owned_row s' ++ X) h').
+    + unfold dense_copy_body. destruct (N.eqb_spec ycap 0) as [E|E].
+      * cbn [ret sat]. split; [apply row_inv_empty|]. split; [reflexivity | exact HL].
+      * rewrite bind_modify. cbn [vec coeffs empty_row].
+        eapply sat_bind.
+        -- apply alloc_sat; exact HL.
+        -- cbn beta. intros s' h' [-> H]. exact H.
+        -- cbn beta. intros nv s1 h1 [-> HL1]. rewrite bind_modify. cbn [cap coeffs].
+           eapply sat_conseq.
+           ++ apply copy_coeffs_sat with (X := X). unfold owned_row. cbn. exact HL1.
+           ++ cbn beta. cbn [vec cap coeffs length]. intros _ s2 h2 [A [B [C D]]].
+              unfold row_inv, dsize. rewrite A, B, C. cbn [Nat.add].
+              split; [split; [discriminate | exact Hy]|]. split; [reflexivity | exact D].
+           ++ cbn beta. intros s2 h2 H; exact H.
+    + cbn beta. intros a s' h' H; exact H.
+    + cbn beta. intros s2 h2 HL2. eapply sat_bind.
+      * apply impl_dtor_sat; exact HL2.
+      * intros ? ? F; contradiction.
+      * cbn beta. intros _ s3 h3 HL3. cbn. exact HL3.
+  - cbn beta. intros _ s' h' H; exact H.
+  - cbn beta. intros s' h' H; exact H.
+Qed.
+
+Theorem dense_copy_unwind_balanced : forall ycap ycoeffs k h,
+  wf h -> N.of_nat (length ycoeffs) <= ycap ->
+  match dense_copy ycap ycoeffs tt (arm k h) with
+  | Ret r _ h' => wf h' /\ ledger_eq (live h') (owned_row r ++ live h)
+                  /\ row_inv r /\ NoDup (map fst (owned_row r))
+                  /\ dsize r = (if N.eqb ycap 0 then 0 else N.of_nat (length ycoeffs))
+  | Exn _ h' => wf h' /\ ledger_eq (live h') (live h)
+  | Bad _ => False
+  end.
+Proof.
+  intros ycap ycoeffs k h W Hy.
+  pose proof (dense_copy_sat ycap ycoeffs tt (arm k h) (live h) Hy
+                (Lg_arm k _ _ (Lg_self h W))) as H.
+  destruct (dense_copy ycap ycoeffs tt (arm k h)) as [r u h'|u h'|h']; cbn [sat] in H.
+  - destruct H as [I [Hs HL]]. apply Lg_out in HL. tauto.
+  - exact H.
+  - exact H.
+Qed.
+
+Example dense_copy_hyp_sat : wf empty_heap /\ N.of_nat (length [1; 0; 2]) <= 4.
+Proof. split; [exact wf_empty | cbn; lia]. Qed.
+
+(* ========================================================================= *)
+(*  (h) Swapping_Vector<T>::reserve   Swapping_Vector_inlines.hh:60          *)
+(*  for T whose default constructor and swap do not allocate                 *)
+(* ========================================================================= *)
+
+Record svec := mkSv { sbuf : option nat; scap : N; ssize : N }.
+
+Definition owned_sv (szT : N) (v : svec) : list blk :=
+  opt_blk LNew (scap v * szT) (sbuf v).
+
+Definition sv_inv (v : svec) : Prop :=
+  (sbuf v = None <-> scap v = 0) /\ ssize v <= scap v.
+
+(* c = compute_capacity(new_capacity, max_num_rows()) is a parameter; the branch
+   is only entered with new_capacity > capacity() >= 0 and compute_capacity
+   returns at least its first argument, so c > 0 and reserve(c) allocates. *)
+Definition sv_reserve (szT new_capacity c : N) : M svec unit :=
+  v <- get ;;
+  if N.ltb (scap v) new_capacity then
+    (* std::vector<T> new_impl; new_impl.reserve(c); *)
+    nb <- alloc LNew (c * szT) ;;
+    (* new_impl.resize(impl.size()); swaps: no allocation *)
+    (* swap(impl, new_impl); ~new_impl releases the old buffer (if any) *)
+    free_opt LNew (sbuf v) ;;;
+    put (mkSv (Some nb) c (ssize v))
+  else ret tt.
+
+Lemma sv_reserve_sat : forall szT nc c s h X,
+  sv_inv s -> nc <= c -> Lg (owned_sv szT s ++ X) h ->
+  sat (sv_reserve szT nc c s h)
+      (fun _ s' h' => sv_inv s' /\ ssize s' = ssize s /\ nc <= scap s' /\
+                      Lg (owned_sv szT s' ++ X) h')
+      (fun s' h' => s' = s /\ Lg (owned_sv szT s ++ X) h').
+Proof.
+  intros szT nc c s h X [I0 I1] Hc HL. unfold sv_reserve. rewrite bind_get.
+  destruct (N.ltb_spec (scap s) nc) as [Hlt|Hge].
+  - eapply sat_bind.
+    + apply alloc_sat; exact HL.
+    + cbn beta. intros s' h' H; exact H.
+    + cbn beta. intros nb s1 h1 [-> HL1]. eapply sat_bind.
+      * eapply free_opt_sat with (X := (nb, (LNew, c * szT)) :: X); [exact HL1|].
+        unfold owned_sv. apply Permutation_middle.
+      * intros ? ? F; contradiction.
+      * cbn beta. intros _ s2 h2 [-> HL2]. cbn [put sat].
+        unfold sv_inv, owned_sv. cbn [sbuf scap ssize opt_blk app].
+        split; [split; [split; [discriminate | lia] | lia]|].
+        split; [reflexivity|]. split; [exact Hc | exact HL2].
+  - cbn [ret sat]. split; [split; assumption|]. split; [reflexivity|]. split; [exact Hge | exact HL].
+Qed.
+
+Theorem sv_reserve_unwind_balanced : forall szT nc c v k h X,
+  wf h -> sv_inv v -> nc <= c -> ledger_eq (live h) (owned_sv szT v ++ X) ->
+  match sv_reserve szT nc c v (arm k h) with
+  | Ret _ v' h' => wf h' /\ ledger_eq (live h') (owned_sv szT v' ++ X)
+                   /\ sv_inv v' /\ ssize v' = ssize v /\ nc <= scap v'
+  | Exn v' h' => wf h' /\ ledger_eq (live h') (owned_sv szT v ++ X) /\ v' = v
+  | Bad _ => False
+  end.
+Proof.
+  intros szT nc c v k h X W I Hc P.
+  pose proof (sv_reserve_sat szT nc c v (arm k h) X I Hc (Lg_arm k _ _ (conj W P))) as H.
+  destruct (sv_reserve szT nc c v (arm k h)) as [a v' h'|v' h'|h']; cbn [sat] in H.
+  - destruct H as [I' [Hs [Hn [W' P']]]]. auto.
+  - destruct H as [-> [W' P']]. auto.
+  - exact H.
+Qed.
+
+Example sv_reserve_hyp_sat :
+  wf empty_heap /\ sv_inv (mkSv None 0 0) /\ 3 <= 8 /\
+  ledger_eq (live empty_heap) (owned_sv 24 (mkSv None 0 0) ++ []).
+Proof.
+  split; [exact wf_empty|]. split.
+  - split; cbn; [tauto | lia].
+  - split; [lia | apply Permutation_refl].
+Qed.
+
+(* ========================================================================= *)
+(*  (i) MIP_Problem::add_constraint_helper   MIP_Problem_inlines.hh:93       *)
+(* ========================================================================= *)
+
+(* input_cs : std::vector<Constraint*>; items = blocks of each owned constraint *)
+Record cvec := mkCv { vbuf : option nat; vcap : N; items : list (list blk) }.
+
+Definition vsize (v : cvec) : N := N.of_nat (length (items v)).
+
+Definition owned_cv (v : cvec) : list blk :=
+  opt_blk LNew (8 * vcap v) (vbuf v) ++ concat (items v).
+
+Definition cv_inv (v : cvec) : Prop :=
+  (vbuf v = None <-> vcap v = 0) /\ vsize v <= vcap v.
+
+(* std::vector<T*>::reserve(n) *)
+Definition vec_reserve (newcap : N) : M cvec unit :=
+  v <- get ;;
+  if N.ltb (vcap v) newcap then
+    nb <- alloc LNew (8 * newcap) ;;
+    free_opt LNew (vbuf v) ;;;                    (* memmove; deallocate old *)
+    put (mkCv (Some nb) newcap (items v))
+  else ret tt.
+
+(* new Constraint(c): operator new(sizeof(Constraint)), then the copy
+   construction = RAII-safe sub-allocations [subs]; if it throws, the
+   new-expression releases the node. *)
+Definition new_constraint {St} (csize : N) (subs : list (layer * N)) : M St (list blk) :=
+  node <- alloc LNew csize ;;
+  bs <- try_catch (raii_allocs subs) (free LNew node ;;; throw) ;;
+  ret ((node, (LNew, csize)) :: bs).
+
+(* std::vector<T*>::push_back (libstdc++): if full, _M_realloc_insert with
+   capacity max(1, 2*size) *)
+Definition push_back (p : list blk) : M cvec unit :=
+  v <- get ;;
+  (if N.eqb (vsize v) (vcap v) then
+     let nc := N.max 1 (2 * vsize v) in
+     nb <- alloc LNew (8 * nc) ;;
+     free_opt LNew (vbuf v) ;;;
+     put (mkCv (Some nb) nc (items v))
+   else ret tt) ;;;
+  modify (fun v => mkCv (vbuf v) (vcap v) (items v ++ [p])).
+
+(* newcap = compute_capacity(size + 1, max_size) is a parameter *)
+Definition add_constraint_helper (newcap csize : N) (subs : list (layer * N)) : M cvec unit :=
+  v <- get ;;
+  (if N.eqb (vsize v) (vcap v) then vec_reserve newcap else ret tt) ;;;
+  p <- new_constraint csize subs ;;
+  push_back p.
+
+(* MUTANT: input_cs.push_back(new Constraint(c)) without the reserve *)
+Definition add_constraint_unguarded (csize : N) (subs : list (layer * N)) : M cvec unit :=
+  p <- new_constraint csize subs ;;
+  push_back p.
+
+Lemma new_constraint_sat {St} : forall csize subs (s : St) h X,
+  Lg X h ->
+  sat (new_constraint csize subs s h)
+      (fun p s' h' => s' = s /\ map snd p = (LNew, csize) :: subs /\ Lg (p ++ X) h')
+      (fun s' h' => s' = s /\ Lg X h').
+Proof.
+  intros csize subs s h X HL. unfold new_constraint.
+  eapply sat_bind.
+  - apply alloc_sat; exact HL.
+  - cbn beta. intros s' h' H; exact H.
+  - cbn beta. intros node s1 h1 [-> HL1].
+    eapply sat_bind with (E1 := fun s' h' => s' = s /\ Lg X h').
+    + eapply sat_try.
+      * apply raii_allocs_sat; exact HL1.
+      * cbn beta. intros a s' h' H; exact H.
+      * cbn beta. intros s2 h2 [-> HL2]. eapply sat_bind.
+        -- eapply free_sat; [exact HL2 | apply Permutation_refl].
+        -- intros ? ? F; contradiction.
+        -- cbn beta. intros _ s3 h3 [-> HL3]. cbn. auto.
+    + intros s' h' H; exact H.
+    + cbn beta. intros bs s2 h2 [-> [Hm HL2]]. cbn [ret sat]. split; [reflexivity|].
+      split; [cbn [map snd]; rewrite Hm; reflexivity|].
+      eapply Lg_perm; [exact HL2|]. cbn [app]. apply Permutation_sym, Permutation_middle.
+Qed.
+
+Lemma concat_snoc {A} (ls : list (list A)) (p : list A) : concat (ls ++ [p]) = concat ls ++ p.
+Proof. rewrite concat_app. cbn. rewrite app_nil_r. reflexivity. Qed.
+
+Lemma add_constraint_helper_sat : forall newcap csize subs s h X,
+  cv_inv s -> vsize s < newcap -> Lg (owned_cv s ++ X) h ->
+  sat (add_constraint_helper newcap csize subs s h)
+      (fun _ s' h' => cv_inv s' /\ (exists p, items s' = items s ++ [p] /\ map snd p = (LNew, csize) :: subs)
+                      /\ Lg (owned_cv s' ++ X) h')
+      (fun s' h' => cv_inv s' /\ items s' = items s /\ Lg (owned_cv s' ++ X) h').
+Proof.
+  intros newcap csize subs s h X [I0 I1] Hn HL. unfold add_constraint_helper. rewrite bind_get.
+  eapply sat_bind with
+    (Q1 := fun _ s1 h1 => cv_inv s1 /\ items s1 = items s /\ vsize s1 < vcap s1 /\
+                          Lg (owned_cv s1 ++ X) h1)
+    (E1 := fun s' h' => cv_inv s' /\ items s' = items s /\ Lg (owned_cv s' ++ X) h').
+  - destruct (N.eqb_spec (vsize s) (vcap s)) as [E|E].
+    + unfold vec_reserve. rewrite bind_get.
+      destruct (N.ltb_spec (vcap s) newcap) as [Hlt|Hge]; [|lia].
+      eapply sat_bind.
+      * apply alloc_sat; exact HL.
+      * cbn beta. intros s' h' [-> H]. split; [split; assumption|]. split; [reflexivity | exact H].
+      * cbn beta. intros nb s1 h1 [-> HL1]. eapply sat_bind.
+        -- eapply free_opt_sat with (X := (nb, (LNew, 8 * newcap)) :: concat (items s) ++ X);
+             [exact HL1|].
+           unfold owned_cv. rewrite <- app_assoc. apply Permutation_middle.
+        -- intros ? ? F; contradiction.
+        -- cbn beta. intros _ s2 h2 [-> HL2]. cbn [put sat].
+           unfold cv_inv, vsize, owned_cv in *. cbn [vbuf vcap items opt_blk app].
+           split; [split; [split; [discriminate | lia] | lia]|].
+           split; [reflexivity|]. split; [lia | exact HL2].
+    + cbn [ret sat]. split; [split; assumption|]. split; [reflexivity|]. split; [lia | exact HL].
+  - intros s' h' H; exact H.
+  - cbn beta. intros _ s1 h1 [[J0 J1] [Hi [Hlt HL1]]].
+    eapply sat_bind.
+    + apply new_constraint_sat; exact HL1.
+    + cbn beta. intros s' h' [-> H]. split; [split; assumption|]. split; assumption.
+    + cbn beta. intros p s2 h2 [-> [Hp HL2]]. unfold push_back. rewrite bind_get.
+      destruct (N.eqb_spec (vsize s1) (vcap s1)) as [E|E]; [lia|].
+      rewrite bind_ret. cbn [modify sat].
+      unfold cv_inv, vsize, owned_cv in *. cbn [vbuf vcap items].
+      rewrite app_length. cbn [length].
+      split; [split; [exact J0 | lia]|].
+      split.
+      * exists p. rewrite Hi. split; [reflexivity | exact Hp].
+      * rewrite concat_snoc. eapply Lg_perm; [exact HL2|].
+        rewrite <- !app_assoc. apply Permutation_sym, perm_rot3.
+Qed.
+
+(* On failure the receiver is logically unchanged (same items) but its buffer
+   may already have been replaced by the bigger one: receiver' = the state the
+   C++ leaves, with all its blocks accounted for. *)
+Theorem mip_add_constraint_unwind_balanced : forall newcap csize subs v k h X,
+  wf h -> cv_inv v -> vsize v < newcap -> ledger_eq (live h) (owned_cv v ++ X) ->
+  match add_constraint_helper newcap csize subs v (arm k h) with
+  | Ret _ v' h' => wf h' /\ ledger_eq (live h') (owned_cv v' ++ X) /\ cv_inv v'
+                   /\ (exists p, items v' = items v ++ [p] /\ map snd p = (LNew, csize) :: subs)
+                   /\ NoDup (map fst (owned_cv v'))
+  | Exn v' h' => wf h' /\ ledger_eq (live h') (owned_cv v' ++ X) /\ cv_inv v'
+                 /\ items v' = items v
+  | Bad _ => False
+  end.
+Proof.
+  intros newcap csize subs v k h X W I Hn P.
+  pose proof (add_constraint_helper_sat newcap csize subs v (arm k h) X I Hn
+                (Lg_arm k _ _ (conj W P))) as H.
+  destruct (add_constraint_helper newcap csize subs v (arm k h)) as [a v' h'|v' h'|h'];
+    cbn [sat] in H.
+  - destruct H as [I' [Hp HL]]. apply Lg_out in HL. tauto.
+  - destruct H as [I' [Hi [W' P']]]. auto.
+  - exact H.
+Qed.
+
+Example mip_add_constraint_hyp_sat :
+  wf empty_heap /\ cv_inv (mkCv None 0 []) /\ vsize (mkCv None 0 []) < 2 /\
+  ledger_eq (live empty_heap) (owned_cv (mkCv None 0 []) ++ []).
+Proof.
+  split; [exact wf_empty|]. split.
+  - split; cbn; [tauto | lia].
+  - split; [cbn; lia | apply Permutation_refl].
+Qed.
+
+(* the mutant leaks the new-ed Constraint when push_back's reallocation fails *)
+Theorem mip_add_constraint_unguarded_refuted :
+  exists csize subs v k h X,
+    wf h /\ cv_inv v /\ ledger_eq (live h) (owned_cv v ++ X) /\
+    exists v' h',
+      add_constraint_unguarded csize subs v (arm k h) = Exn v' h' /\
+      ~ ledger_eq (live h') (owned_cv v' ++ X).
+Proof.
+  exists 32, [(LGmp, 8)], (mkCv None 0 []), 3%nat, empty_heap, [].
+  split; [exact wf_empty|]. split; [split; cbn; [tauto | lia]|].
+  split; [apply Permutation_refl|].
+  eexists _, _. split; [vm_compute; reflexivity|].
+  vm_compute. intro P. apply Permutation_sym in P.
+  apply Permutation_nil in P. discriminate P.
+Qed.
+
+(* ========================================================================= *)
+(*  (j) PIP_Decision_Node copy constructor   PIP_Tree.cc:1121                *)
+(* ========================================================================= *)
+
+(* base = blocks of the PIP_Tree_Node(y) base subobject; a child is the list of
+   blocks its clone() allocated ([] = null child). clone() is RAII-safe. *)
+Record dnode := mkDn { dbase : list blk; fchild : list blk; tchild : list blk }.
+
+Definition owned_dn (d : dnode) : list blk := dbase d ++ fchild d ++ tchild d.
+
+(* delete child: release its blocks (reverse order of allocation) *)
+Definition delete_node {St} (bs : list blk) : M St unit := free_list (rev bs).
+
+Definition pip_copy_body (guarded : bool) (base fc tc : list (layer * N)) : M dnode unit :=
+  (* : PIP_Tree_Node(y), false_child(0), true_child(0) *)
+  bb <- raii_allocs base ;;
+  modify (fun d => mkDn bb (fchild d) (tchild d)) ;;;
+  (* the base subobject is fully constructed: its destructor runs if the body throws *)
+  try_catch
+    (f <- raii_allocs fc ;;                        (* false_child = y.false_child->clone() *)
+     modify (fun d => mkDn (dbase d) f (tchild d)) ;;;
+     (* Safe_Node safe_node(false_child); *)
+     t <- (if guarded
+           then try_catch (raii_allocs tc) (delete_node f ;;; throw)
+           else raii_allocs tc) ;;                 (* true_child = y.true_child->clone() *)
+     modify (fun d => mkDn (dbase d) (fchild d) t))  (* safe_node.release() *)
+    (delete_node bb ;;; throw).
+
+Definition pip_copy_ctor (base fc tc : list (layer * N)) : M unit dnode :=
+  construct (mkDn [] [] []) (pip_copy_body true base fc tc).
+
+(* MUTANT: without the Safe_Node guard *)
+Definition pip_copy_ctor_unguarded (base fc tc : list (layer * N)) : M unit dnode :=
+  construct (mkDn [] [] []) (pip_copy_body false base fc tc).
+
+Lemma delete_node_sat {St} : forall bs (s : St) h X,
+  Lg (bs ++ X) h ->
+  sat (delete_node bs s h) (fun _ s' h' => s' = s /\ Lg X h') (fun _ _ => False).
+Proof.
+  intros bs s h X HL. unfold delete_node.
+  eapply free_list_sat; [exact HL|].
+  apply Permutation_app_tail. apply Permutation_rev.
+Qed.
+
+Lemma pip_copy_body_sat : forall base fc tc s h X,
+  Lg X h ->
+  sat (pip_copy_body true base fc tc s h)
+      (fun _ s' h' => map snd (dbase s') = base /\ map snd (fchild s') = fc /\
+                      map snd (tchild s') = tc /\ Lg (owned_dn s' ++ X) h')
+      (fun _ h' => Lg X h').
+Proof.
+  intros base fc tc s h X HL. unfold pip_copy_body.
+  eapply sat_bind.
+  - apply raii_allocs_sat; exact HL.
+  - cbn beta. intros s' h' [_ H]; exact H.
+  - cbn beta. intros bb s1 h1 [-> [Hb HL1]]. rewrite bind_modify.
+    eapply sat_try with
+      (Q1 := fun _ s' h' => map snd (dbase s') = base /\ map snd (fchild s') = fc /\
+                            map snd (tchild s') = tc /\ Lg (owned_dn s' ++ X) h')
+      (E1 := fun _ h' => Lg (bb ++ X) h').
+    + eapply sat_bind.
+      * apply raii_allocs_sat; exact HL1.
+      * cbn beta. intros s' h' [_ H]; exact H.
+      * cbn beta. intros f s2 h2 [-> [Hf HL2]]. rewrite bind_modify.
+        cbn [dbase tchild].
+        eapply sat_bind with (E1 := fun _ h' => Lg (bb ++ X) h').
+        -- eapply sat_try.
+           ++ apply raii_allocs_sat; exact HL2.
+           ++ cbn beta. intros a s' h' H; exact H.
+           ++ cbn beta. intros s3 h3 [-> HL3]. eapply sat_bind.
+              ** apply delete_node_sat; exact HL3.
+              ** intros ? ? F; contradiction.
+              ** cbn beta. intros _ s4 h4 [-> HL4]. cbn. exact HL4.
+        -- intros s' h' H; exact H.
+        -- cbn beta. intros t s3 h3 [-> [Ht HL3]]. cbn [modify sat dbase fchild tchild].
+           split; [exact Hb|]. split; [exact Hf|]. split; [exact Ht|].
+           unfold owned_dn. cbn [dbase fchild tchild].
+           eapply Lg_perm; [exact HL3|].
+           (* t ++ f ++ bb ++ X ~ (bb ++ f ++ t) ++ X *)
+           rewrite <- !app_assoc.
+           eapply Permutation_trans; [apply perm_rot3|].
+           apply Permutation_app_head.
+           rewrite !app_assoc. apply Permutation_app_tail. apply Permutation_app_comm.
+    + cbn beta. intros a s' h' H; exact H.
+    + cbn beta. intros s2 h2 HL2. eapply sat_bind.
+      * apply delete_node_sat; exact HL2.
+      * intros ? ? F; contradiction.
+      * cbn beta. intros _ s3 h3 [_ HL3]. cbn. exact HL3.
+Qed.
+
+Theorem pip_decision_copy_unwind_balanced : forall base fc tc k h,
+  wf h ->
+  match pip_copy_ctor base fc tc tt (arm k h) with
+  | Ret d _ h' => wf h' /\ ledger_eq (live h') (owned_dn d ++ live h)
+                  /\ map snd (dbase d) = base /\ map snd (fchild d) = fc
+                  /\ map snd (tchild d) = tc /\ NoDup (map fst (owned_dn d))
+  | Exn _ h' => wf h' /\ ledger_eq (live h') (live h)
+  | Bad _ => False
+  end.
+Proof.
+  intros base fc tc k h W.
+  assert (H : sat (pip_copy_ctor base fc tc tt (arm k h))
+                  (fun d _ h' => map snd (dbase d) = base /\ map snd (fchild d) = fc /\
+                                 map snd (tchild d) = tc /\ Lg (owned_dn d ++ live h) h')
+                  (fun _ h' => Lg (live h) h')).
+  { unfold pip_copy_ctor. eapply sat_construct.
+    - apply pip_copy_body_sat. apply Lg_arm. apply Lg_self. exact W.
+    - cbn beta. intros _ s' h' H; exact H.
+    - cbn beta. intros s' h' H; exact H. }
+  destruct (pip_copy_ctor base fc tc tt (arm k h)) as [d u h'|u h'|h']; cbn [sat] in H.
+  - destruct H as [Hb [Hf [Ht HL]]]. apply Lg_out in HL. tauto.
+  - exact H.
+  - exact H.
+Qed.
+
+Example pip_decision_copy_hyp_sat : wf empty_heap.
+Proof. exact wf_empty. Qed.
+
+Theorem pip_decision_copy_unguarded_refuted :
+  exists base fc tc k h, wf h /\ exists h',
+    pip_copy_ctor_unguarded base fc tc tt (arm k h) = Exn tt h' /\
+    ~ ledger_eq (live h') (live h).
+Proof.
+  exists [(LGmp, 8)], [(LNew, 64)], [(LNew, 64)], 3%nat, empty_heap.
+  split; [exact wf_empty|].
+  eexists. split; [vm_compute; reflexivity|].
+  vm_compute. intro P. apply Permutation_sym in P.
+  apply Permutation_nil in P. discriminate P.
+Qed.
+
+(* ========================================================================= *)
+(*  Observable interface (extracted to OCaml; compared event-by-event with    *)
+(*  the real library for every k).  Result = (ok, trace oldest first,         *)
+(*  leaked, owned):                                                          *)
+(*    ok     : true = normal return, false = exception;                      *)
+(*    leaked : number of blocks live at the end that are not owned by the     *)
+(*             resulting / remaining object (receivers are built first, from *)
+(*             the empty heap, so every live block is either owned or leaked);*)
+(*             +1000 per owned block that is not live; Bad = 1000;           *)
+(*    owned  : number of blocks owned by the resulting object (constructors: *)
+(*             0 on exception) / by the receiver after the call (methods,    *)
+(*             both outcomes).                                               *)
+(*  k : the k-th allocation request of the observed call fails (0 = none).   *)
+(* ========================================================================= *)
+
+Definition observe_c {St'} (owned_ids : St' -> list nat) (r : res unit St') : obs :=
+  match r with
+  | Ret o _ h => (true, rev (trace h), leak_count (owned_ids o) h,
+                  N.of_nat (length (owned_ids o)))
+  | Exn _ h => (false, rev (trace h), leak_count [] h, 0)
+  | Bad h => (false, rev (trace h), 1000, 0)
+  end.
+
+Definition failed_setup : obs := (false, [], 1000, 0).
+
+Definition start (k : N) (h : heap) : heap := arm (N.to_nat k) (clear_trace h).
+
+Definition tree_ids (t : tree) : list nat := map fst (owned_tree t).
+Definition row_ids (r : drow) : list nat := map fst (owned_row r).
+
+(* used-slot lists are normalised: positions outside 1..rsz and repeated
+   positions are dropped (the C++ cannot represent them) *)
+Fixpoint mem_N (x : N) (l : list N) : bool :=
+  match l with [] => false | y :: l' => if N.eqb x y then true else mem_N x l' end.
+
+Fixpoint dedup_pos (seen : list N) (l : list (N * N)) : list (N * N) :=
+  match l with
+  | [] => []
+  | (p, lb) :: l' =>
+      if mem_N p seen then dedup_pos seen l' else (p, lb) :: dedup_pos (p :: seen) l'
+  end.
+
+Definition norm_used (rsz0 : N) (used : list (N * N)) : list (N * N) :=
+  dedup_pos [] (filter (fun pl => N.leb 1 (fst pl) && N.leb (fst pl) rsz0) used).
+
+Definition tr_init (n k : N) : obs :=
+  observe tree_ids (init n empty_tree (start k empty_heap)).
+
+Definition tr_iter_ctor (src : list N) (k : N) : obs :=
+  observe_c tree_ids (iter_ctor src tt (start k empty_heap)).
+
+Definition tr_iter_ctor_fixed (src : list N) (k : N) : obs :=
+  observe_c tree_ids (iter_ctor_fixed src tt (start k empty_heap)).
+
+(* used : (dfs position, limbs), any order *)
+Definition tr_copy_ctor (rsz0 : N) (used : list (N * N)) (k : N) : obs :=
+  observe_c tree_ids (copy_ctor rsz0 (norm_used rsz0 used) tt (start k empty_heap)).
+
+(* build a receiver tree (rsz0 should be 0 or 2^d - 1), without fault *)
+Definition with_tree (rsz0 : N) (used : list (N * N)) (f : tree -> heap -> obs) : obs :=
+  match copy_ctor rsz0 (norm_used rsz0 used) tt empty_heap with
+  | Ret t _ h0 => f t h0
+  | _ => failed_setup
+  end.
+
+Definition tr_assign (rsz_this : N) (used_this : list (N * N))
+           (rsz_y : N) (used_y : list (N * N)) (k : N) : obs :=
+  with_tree rsz_this used_this (fun t h0 =>
+    observe tree_ids (assign rsz_y (norm_used rsz_y used_y) t (start k h0))).
+
+Definition tr_rebuild_bigger (rsz0 : N) (used : list (N * N)) (k : N) : obs :=
+  with_tree rsz0 used (fun t h0 => observe tree_ids (rebuild_bigger t (start k h0))).
+
+(* receiver row: capacity cap (vec allocated iff cap > 0), one coefficient per
+   entry of coeffs (truncated to cap), with a limb block of 8*limbs bytes iff
+   limbs > 0 *)
+Fixpoint build_coeffs (ls : list N) : M drow unit :=
+  match ls with
+  | [] => ret tt
+  | lb :: rest =>
+      (if N.eqb lb 0
+       then modify (fun r => mkRow (vec r) (cap r) (coeffs r ++ [None]))
+       else b <- alloc LGmp (8 * lb) ;;
+            modify (fun r => mkRow (vec r) (cap r) (coeffs r ++ [Some (b, 8 * lb)]))) ;;;
+      build_coeffs rest
+  end.
+
+Definition build_row (cap0 : N) (cs : list N) : M drow unit :=
+  (if N.eqb cap0 0 then ret tt
+   else nv <- alloc LNew (sz_coeff * cap0) ;; put (mkRow (Some nv) cap0 [])) ;;;
+  build_coeffs (firstn (N.to_nat cap0) cs).
+
+Definition tr_dense_resize (cap0 : N) (cs : list N) (new_size k : N) : obs :=
+  match build_row cap0 cs empty_row empty_heap with
+  | Ret _ r h0 => observe row_ids (dense_resize new_size r (start k h0))
+  | _ => failed_setup
+  end.
+
+Definition tr_dense_copy (cap0 : N) (cs : list N) (k : N) : obs :=
+  observe_c row_ids (dense_copy cap0 (firstn (N.to_nat cap0) cs) tt (start k empty_heap)).
+
+(* Swapping_Vector<T>::reserve(new_capacity) on a vector of capacity old_cap
+   (buffer of old_cap * szT bytes, allocated iff old_cap > 0) and [size]
+   elements; c = compute_capacity(new_capacity, max_num_rows()) is what is
+   passed to new_impl.reserve; szT = sizeof(T).  To give sizes in bytes use
+   szT = 1.  [owned] counts the buffer only (0 or 1). *)
+Definition tr_sv_reserve (old_cap size new_capacity c szT k : N) : obs :=
+  let ids := fun v : svec => map fst (owned_sv szT v) in
+  if N.eqb old_cap 0
+  then observe ids (sv_reserve szT new_capacity c (mkSv None 0 size) (start k empty_heap))
+  else
+    match alloc LNew (old_cap * szT) tt empty_heap with
+    | Ret b _ h0 =>
+        observe ids (sv_reserve szT new_capacity c (mkSv (Some b) old_cap size) (start k h0))
+    | _ => failed_setup
+    end.
+
+(* extras (not required by the harness): (i) on an empty vector, (j) *)
+Definition tr_mip_add (guarded : bool) (newcap csize : N) (subs : list (layer * N)) (k : N) : obs :=
+  let ids := fun v : cvec => map fst (owned_cv v) in
+  observe ids ((if guarded then add_constraint_helper newcap csize subs
+                else add_constraint_unguarded csize subs)
+                 (mkCv None 0 []) (start k empty_heap)).
+
+Definition tr_pip_copy (guarded : bool) (base fc tc : list (layer * N)) (k : N) : obs :=
+  observe_c (fun d : dnode => map fst (owned_dn d))
+            (construct (mkDn [] [] []) (pip_copy_body guarded base fc tc) tt (start k empty_heap)).
+
+(* ---------- examples of the observable format (checked by vm_compute; the
+   same values were measured on the real library) ---------- *)
+
+Example ex_tr_init :
+  (tr_init 4 1, tr_init 4 2, tr_init 4 3) =
+  ((false, [EvFail LNew 72], 0, 0),
+   (false, [EvAlloc LNew 72; EvFail LNew 128; EvFree LNew 72], 0, 0),
+   (true, [EvAlloc LNew 72; EvAlloc LNew 128], 0, 2)).
+Proof. vm_compute. reflexivity. Qed.
+
+(* the defect: k = 3, 4 leave 2, 3 blocks behind *)
+Example ex_tr_iter_ctor :
+  map (tr_iter_ctor [1; 1]) [2; 3; 4; 5] =
+  [(false, [EvAlloc LNew 40; EvFail LNew 64; EvFree LNew 40], 0, 0);
+   (false, [EvAlloc LNew 40; EvAlloc LNew 64; EvFail LGmp 8], 2, 0);
+   (false, [EvAlloc LNew 40; EvAlloc LNew 64; EvAlloc LGmp 8; EvFail LGmp 8], 3, 0);
+   (true, [EvAlloc LNew 40; EvAlloc LNew 64; EvAlloc LGmp 8; EvAlloc LGmp 8], 0, 4)].
+Proof. vm_compute. reflexivity. Qed.
+
+Example ex_tr_iter_ctor_fixed :
+  tr_iter_ctor_fixed [1; 1] 4 =
+  (false, [EvAlloc LNew 40; EvAlloc LNew 64; EvAlloc LGmp 8; EvFail LGmp 8;
+           EvFree LGmp 8; EvFree LNew 40; EvFree LNew 64], 0, 0).
+Proof. vm_compute. reflexivity. Qed.
+
+Example ex_tr_copy_ctor :
+  tr_copy_ctor 7 [(2, 2); (4, 1); (6, 1); (7, 1)] 6 =
+  (false, [EvAlloc LNew 72; EvAlloc LNew 128; EvAlloc LGmp 8; EvAlloc LGmp 8;
+           EvAlloc LGmp 8; EvFail LGmp 16; EvFree LGmp 8; EvFree LGmp 8;
+           EvFree LGmp 8; EvFree LNew 72; EvFree LNew 128], 0, 0).
+Proof. vm_compute. reflexivity. Qed.
+
+Example ex_tr_assign :
+  tr_assign 15 [(4,1);(6,1);(8,1);(10,1);(11,2);(12,1);(13,1);(14,1);(15,3)]
+            7 [(2, 2); (4, 1); (6, 1); (7, 1)] 1 =
+  (false, [EvFree LGmp 8; EvFree LGmp 8; EvFree LGmp 8; EvFree LGmp 8; EvFree LGmp 16;
+           EvFree LGmp 8; EvFree LGmp 8; EvFree LGmp 8; EvFree LGmp 24;
+           EvFree LNew 136; EvFree LNew 256; EvFail LNew 72], 0, 0).
+Proof. vm_compute. reflexivity. Qed.
+
+Example ex_tr_rebuild_bigger :
+  map (tr_rebuild_bigger 7 [(2, 2); (4, 1); (6, 1); (7, 1)]) [2; 3] =
+  [(false, [EvAlloc LNew 136; EvFail LNew 256; EvFree LNew 136], 0, 6);
+   (true, [EvAlloc LNew 136; EvAlloc LNew 256; EvFree LNew 72; EvFree LNew 128], 0, 6)].
+Proof. vm_compute. reflexivity. Qed.
+
+Example ex_tr_dense_resize :
+  (tr_dense_resize 3 [1; 0; 2] 5 1, tr_dense_resize 3 [1; 0; 2] 5 2, tr_dense_resize 3 [1; 0; 2] 1 1) =
+  ((false, [EvFail LNew 80], 0, 3),
+   (true, [EvAlloc LNew 80; EvFree LNew 48], 0, 3),
+   (true, [EvFree LGmp 16], 0, 2)).
+Proof. vm_compute. reflexivity. Qed.
+
+Example ex_tr_dense_copy :
+  tr_dense_copy 3 [1; 0; 2] 4 =
+  (false, [EvAlloc LNew 48; EvAlloc LGmp 8; EvAlloc LGmp 8; EvFail LGmp 16;
+           EvFree LGmp 8; EvFree LGmp 8; EvFree LNew 48], 0, 0).
+Proof. vm_compute. reflexivity. Qed.
+
+Example ex_tr_sv_reserve :
+  map (tr_sv_reserve 256 3 300 704 1) [1; 2] =
+  [(false, [EvFail LNew 704], 0, 1); (true, [EvAlloc LNew 704; EvFree LNew 256], 0, 1)].
+Proof. vm_compute. reflexivity. Qed.
+
+Example ex_tr_mip_unguarded_leaks :
+  tr_mip_add false 2 32 [(LGmp, 8)] 3 =
+  (false, [EvAlloc LNew 32; EvAlloc LGmp 8; EvFail LNew 8], 2, 0).
+Proof. vm_compute. reflexivity. Qed.
+
+Example ex_tr_pip_unguarded_leaks :
+  tr_pip_copy false [(LGmp, 8)] [(LNew, 64)] [(LNew, 64)] 3 =
+  (false, [EvAlloc LGmp 8; EvAlloc LNew 64; EvFail LNew 64; EvFree LGmp 8], 1, 0).
+Proof. vm_compute. reflexivity. Qed.
